@@ -507,6 +507,11 @@ def run_check(prop: str, tier: str) -> int:
     os.makedirs(os.path.join(VERIF, "evidence"), exist_ok=True)
     with open(os.path.join(VERIF, "evidence", f"{prop}.json"), "w") as f:
         json.dump(ev, f, indent=1, sort_keys=True)
+    if tier == "thorough":
+        # keep the deep run's evidence next to the per-change one (which the next quick run overwrites)
+        os.makedirs(os.path.join(VERIF, "evidence", "thorough"), exist_ok=True)
+        with open(os.path.join(VERIF, "evidence", "thorough", f"{prop}.json"), "w") as f:
+            json.dump(ev, f, indent=1, sort_keys=True)
     print(f"[check] property={prop} tier={tier}: {total.runs} runs ({len(nontrivial)} distinct non-trivial, "
           f"{len(shapes)} shapes), {total.sim_seconds:.0f} simulated s, {wall:.1f}s wall, "
           f"faults={dict(sorted(total.faults.items()))}, exit={exit_code}", flush=True)
